@@ -173,6 +173,7 @@ class _DetourContext:
   def __init__(self):
     self._tls = threading.local()
     self._original_new = dict()
+    self._lock = threading.Lock()
 
   @property
   def _detour_stack(self):
@@ -229,9 +230,13 @@ class _DetourContext:
           new_mappings.append((src, dest))
 
     for src, dest in new_mappings:
-      if src not in self._original_new:
-        self._original_new[src] = src.__new__
-        setattr(src, '__new__', _maybe_detoured_new)
+      # NOTE: the original `__new__` is shared among threads. Saving it and
+      # patching the class must be atomic, otherwise a concurrent first-time
+      # detour may save the patched `__new__` as the original one.
+      with self._lock:
+        if src not in self._original_new:
+          self._original_new[src] = src.__new__
+          setattr(src, '__new__', _maybe_detoured_new)
       cur_mappings[src] = dest
     self._detour_stack.append(cur_mappings)
     return cur_mappings
